@@ -1,6 +1,7 @@
 import Driver.Util
 import Driver.C14
-import Torf.Spec.MagnetUri
+import Torf.Spec.MagnetTorrent
+import Std.Data.HashSet
 open Lean Torf Torf.Magnet
 namespace Driver.C13
 open Driver.C14 (cpsOfJson getCps getOptCps getCpsList jcps jerr jexc)
@@ -36,7 +37,9 @@ def oracles (j : Json) : Except String ((Str → Bool) × (Str → IntResult)) :
           pure ((← cpsOfJson k), r)
         | _ => throw "ints: pairs expected"
     | .error _ => pure []
-  pure (fun s => valid.contains s, fun s => (ints.lookup s).getD none)
+  -- a hash set: magnets with > 1000 URLs ask the oracle thousands of times
+  let vset : Std.HashSet Str := Std.HashSet.ofList valid
+  pure (fun s => vset.contains s, fun s => (ints.lookup s).getD none)
 
 /-- `c13.quote`: quote_plus and the way back -/
 def quote (j : Json) : Except String Json := do
@@ -81,7 +84,7 @@ def roundtrip (j : Json) : Except String Json := do
   let r := fromString isUrl intO s
   return jobj [("model", jobj [("uri", jcps s), ("parsed", jparse r)]),
                ("specEq", jbool (r == .ok m)), ("hyp", jbool (WF isUrl m)),
-               ("constructible", jbool (constructible isUrl m))]
+               ("constructible", jbool (constructible isUrl m)), ("fields", jnat (fieldCount m))]
 
 def viewOfJson (j : Json) : Except String TorrentView := do
   pure { infohash := ← getCps j "infohash", name := ← getOptCps j "name",
@@ -107,6 +110,52 @@ def torrentOp (j : Json) : Except String Json := do
       | .notModelled => jobj [("notModelled", jbool true)]
   return jobj [("model", res), ("hyp", jbool (TorrentOk isUrl t))]
 
+def metaOfJson (j : Json) : Except String TorrentMeta := do
+  let al ← match j.getObjVal? "announceList" with
+    | .ok Json.null => pure none
+    | .ok v => do
+      let tiers ← (← v.getArr?).toList.mapM fun tier => do (← tier.getArr?).toList.mapM cpsOfJson
+      pure (some tiers)
+    | .error _ => pure none
+  let ul ← j.getObjVal? "urlList"
+  let kind ← ul.getObjValAs? String "kind"
+  let urlList ← match kind with
+    | "absent" => pure SeedField.absent
+    | "str" => do pure (SeedField.str (← getCps ul "v"))
+    | "list" => do pure (SeedField.list (← getCpsList ul "v"))
+    | _ => throw "urlList.kind"
+  pure { infohash := ← getCps j "infohash", name := ← getOptCps j "name",
+         size := (j.getObjValAs? Nat "size").toOption, announce := ← getOptCps j "announce",
+         announceList := al, urlList := urlList }
+
+def jexcept (f : α → Json) : Except MErr α → Json
+  | .ok a => jobj [("ok", f a)]
+  | .error e => jobj [("err", jerr (some e))]
+
+/-- `c13.torrentmeta`: a torrent given by its raw tracker / webseed metainfo fields: what the getters
+    show (`view`), `magnet()` → str → `from_string` → `torrent()`; spec = the view itself, and the
+    flat tracker list / webseeds the getters must show -/
+def torrentMetaOp (j : Json) : Except String Json := do
+  let t ← metaOfJson (← j.getObjVal? "t")
+  let (isUrl, intO) ← oracles j
+  let view := viewOfMeta isUrl t
+  let res : Json := match magnetOfMeta isUrl t with
+    | .error e => jobj [("err", jerr (some e))]
+    | .ok m =>
+      match fromString isUrl intO (render m) with
+      | .ok m' => (match torrentOfMagnet m' with
+        | .ok t' => jobj [("ok", jview t'), ("uri", jcps (render m))]
+        | .error e => jobj [("err", jerr (some e))])
+      | .err e => jobj [("err", jerr (some e)), ("uri", jcps (render m))]
+      | .notModelled => jobj [("notModelled", jbool true)]
+  let specEq : Bool := match view with
+    | .ok v => v.trackers == flatTrackersSpec t && v.webseeds == webseedsSpec t
+    | .error _ => true
+  return jobj [("model", res), ("view", jexcept jview view),
+               ("specTrackers", jarr ((flatTrackersSpec t).map jcps)),
+               ("specWebseeds", jarr ((webseedsSpec t).map jcps)), ("specEq", jbool specEq),
+               ("hyp", jbool (MetaBaseOk t && (match view with | .ok _ => true | .error _ => false)))]
+
 def handle (op : String) (j : Json) : Except String Json :=
   match op with
   | "c13.quote" => quote j
@@ -116,6 +165,7 @@ def handle (op : String) (j : Json) : Except String Json :=
   | "c13.parse" => parseOp j
   | "c13.roundtrip" => roundtrip j
   | "c13.torrent" => torrentOp j
+  | "c13.torrentmeta" => torrentMetaOp j
   | _ => throw s!"unknown op {op}"
 
 end Driver.C13
